@@ -352,6 +352,18 @@ func (w *vfWorld) lag(cl *vfClient, on bool) {
 	}
 }
 
+// drainLagged lets a lagging connection's worker handle what is queued and
+// makes it busy again.
+func (w *vfWorld) drainLagged(cl *vfClient) {
+	if zzvf.Symbolic() {
+		w.drainConn(cl)
+		return
+	}
+	w.lag(cl, false)
+	w.drainConn(cl)
+	w.lag(cl, true)
+}
+
 // ---- scheduler primitives
 
 // drainConn runs the connection's output worker until its queue is empty.
